@@ -36,20 +36,21 @@ def render(O, v, items, level, tv, lines):
             for child, x in it[2]:
                 lines.append(f'{pad}  {child} float = {O.lit(getattr(v, x))}')
         elif it[0] == 'block':
+            cp = (it[3] + '.') if len(it) > 3 else ''         # compact name: the clause keywords carry the group, 'a.@case'
             for kind, cond, body in it[1]:
                 if kind == 'case':
-                    lines.append(f'{pad}@case {"true" if tv[cond] else "false"}')
+                    lines.append(f'{pad}{cp}@case {"true" if tv[cond] else "false"}')
                 else:
-                    lines.append(f'{pad}@else')
+                    lines.append(f'{pad}{cp}@else')
                 render(O, v, body, level + 1, tv, lines)
             if it[2] == 'end':
-                lines.append(f'{pad}@end')
-def expected(v, items, tv, active, acc):
+                lines.append(f'{pad}{cp}@end')
+def expected(v, items, tv, active, acc, prefix=''):
     """oracle: parameters in order of first effective appearance with the value of the last effective assignment"""
     for it in items:
         if it[0] in ('node', 'mod'):
             if active:
-                acc[it[1]] = getattr(v, it[2])
+                acc[prefix + it[1]] = getattr(v, it[2])
         elif it[0] == 'unit':
             if active:
                 acc[it[2]] = getattr(v, it[3])
@@ -64,7 +65,7 @@ def expected(v, items, tv, active, acc):
             taken = False
             for kind, cond, body in it[1]:
                 sel = (not taken) and (tv[cond] if kind == 'case' else True)
-                expected(v, body, tv, active and sel, acc)
+                expected(v, body, tv, active and sel, acc, prefix + ((it[3] + '.') if len(it) > 3 else ''))
                 taken = taken or sel
     return acc
 def conds(items, out):
@@ -185,6 +186,12 @@ CURATED = [
     ('a $unit line inside a clause', [('block', [('case', 'c1', [('unit', 'len', 'w', 'x1')]), ('else', None, [N('e', 'x2')])], 'end'), N('z', 'x3')]),
     ('a reference to a node of the same clause', [('block', [('case', 'c1', [N('h', 'x1'), ('ref', 'p', 'h', 'ref')]), ('else', None, [N('e', 'x2'), ('ref', 'q', 'e', 'expr')])], 'end'), N('z', 'x3')]),
     ('a reference to a node of the same clause, nested', [('block', [('case', 'c1', [('block', [('case', 'c2', [N('i', 'x1'), ('ref', 'r', 'i', 'ref')])], 'dedent'), N('m', 'x2')])], 'dedent'), N('o', 'x3')]),
+    ('compact names: blocks of two groups at one indent, closed by the next keyword', [('block', [('case', 'c1', [N('v', 'x1')])], 'dedent', 'a'), ('block', [('case', 'c2', [N('w', 'x2')])], 'dedent', 'b'), N('z', 'x3')]),
+    ('compact names: blocks of two groups in descending alphabetical order', [('block', [('case', 'c1', [N('v', 'x1')])], 'dedent', 'b'), ('block', [('case', 'c2', [N('w', 'x2')])], 'dedent', 'a')]),
+    ('compact names: case/else of one group, then a block of another group', [('block', [('case', 'c1', [N('v', 'x1')]), ('else', None, [N('v2', 'x2')])], 'dedent', 'a'), ('block', [('case', 'c2', [N('w', 'x3')]), ('case', 'c3', [N('w2', 'x4')])], 'dedent', 'b'), N('z', 'x5')]),
+    ('compact names: blocks of two groups inside a clause', [('block', [('case', 'c1', [('block', [('case', 'c2', [N('v', 'x1')])], 'dedent', 'a'), ('block', [('case', 'c3', [N('w', 'x2')])], 'dedent', 'b')]), ('else', None, [N('e', 'x3')])], 'end'), N('z', 'x4')]),
+    ('compact names: three groups, the first closed by @end', [('block', [('case', 'c1', [N('v', 'x1')])], 'end', 'a'), ('block', [('case', 'c2', [N('w', 'x2')])], 'dedent', 'c'), ('block', [('case', 'c3', [N('u', 'x3')])], 'dedent', 'b')]),
+    ('compact names: chain of one group (documented form)', [('block', [('case', 'c1', [N('v', 'x1')]), ('case', 'c2', [N('v', 'x2')]), ('else', None, [N('v', 'x3')])], 'end', 'plant'), N('z', 'x4')]),
     ('empty-ish: only else selected branch has nodes', [('block', [('case', 'c1', []), ('else', None, [N('e', 'x1')])], 'dedent'), N('o', 'x2')]),
 ]
 
